@@ -4,7 +4,7 @@
 //! node with the same facts multiple times, significantly improving performance
 //! for complex rule networks.
 
-use super::facts::TypedFacts;
+use super::facts::{FactValue, TypedFacts};
 use super::network::ReteUlNode;
 use std::collections::hash_map::DefaultHasher;
 use std::collections::HashMap;
@@ -18,10 +18,42 @@ fn compute_facts_hash(facts: &TypedFacts) -> u64 {
 
     for (key, value) in sorted_facts {
         key.hash(&mut hasher);
-        value.as_str().hash(&mut hasher);
+        hash_fact_value(value, &mut hasher);
     }
 
     hasher.finish()
+}
+
+/// Feed a value to the hasher with its type: a variant tag, then the payload (floats by bit
+/// pattern, arrays length-prefixed), so that values of different types whose text coincides
+/// (`Integer(5)` / `String("5")` / `Float(5.0)`…) do not share a cache key.
+fn hash_fact_value(value: &FactValue, hasher: &mut DefaultHasher) {
+    match value {
+        FactValue::String(s) => {
+            0u8.hash(hasher);
+            s.hash(hasher);
+        }
+        FactValue::Integer(i) => {
+            1u8.hash(hasher);
+            i.hash(hasher);
+        }
+        FactValue::Float(f) => {
+            2u8.hash(hasher);
+            f.to_bits().hash(hasher);
+        }
+        FactValue::Boolean(b) => {
+            3u8.hash(hasher);
+            b.hash(hasher);
+        }
+        FactValue::Array(items) => {
+            4u8.hash(hasher);
+            items.len().hash(hasher);
+            for item in items {
+                hash_fact_value(item, hasher);
+            }
+        }
+        FactValue::Null => 5u8.hash(hasher),
+    }
 }
 
 /// Compute hash for a node (for memoization key)
